@@ -13,6 +13,7 @@ Decided is the mechanism it rests on, "move only as far (alpha) as the first top
                    and ColaTopologyAddon::applyForcesAndConstraints repeats while it does
 Not decided: that the generated constraints cover every node/segment pair; overlap freedom; convexity of bends.
 """
+import re
 from fractions import Fraction
 
 from ..astq import strip, strip_casts, calls, call_args, call_object, norm, writes, written_field, literal_value, single_assignment_locals
@@ -713,19 +714,42 @@ def rule_hidden_segments(chk, prog):
     conts = [n for n in fn.nodes() if n.get("k") == "ContinueStmt"]
     if len(conts) < 2:
         raise AnalysisBroken("createStraightConstraints: the two skip sites were not found")
-    A = lambda s_: ("atom", s_)
-    own = ("or", ("and", A("(s.start.node.id == node.id)"), A("(s.start.rectIntersect == topology::EdgePoint::CENTRE)")),
-           ("and", A("(s.end.node.id == node.id)"), A("(s.end.rectIntersect == topology::EdgePoint::CENTRE)")))
-    hidden = ("or", ("and", A("(p < leftLimit)"), ("not", A("s.connectedToNode(leftNeighbour)"))),
-              ("and", A("(p > rightLimit)"), ("not", A("s.connectedToNode(rightNeighbour)"))))
-    want = ("or", own, hidden)
+    import itertools
+    from ..rules.guards import evalf
     for c in conts:
         r.count()
         pc = path_condition(fn, c, inline=False)
-        ok = entails(pc, want)
-        (r.ok if ok else r.bad)("skip at line %s" % c.get("l"), fn.loc(c), "" if ok else
-                                "a segment is skipped under %s, which does not require that the segment is NOT attached to the neighbour it is "
-                                "supposed to be hidden behind" % show(pc)[:260])
+        ats = sorted(atoms(pc))
+        own_ats = [a for a in ats if re.search(r"\.node\.id == \w+\.id\)$", a) or "rectIntersect ==" in a]
+        conn = {}           # neighbour variable -> atom `seg.connectedToNode(neighbour)`
+        rng = {}            # neighbour variable -> atoms that place the scan position inside the neighbour's extent
+        for a in ats:
+            m_ = re.match(r"^\w+\.connectedToNode\((\w+)\)$", a)
+            if m_:
+                conn[m_.group(1)] = a
+            m_ = re.search(r"(\w+)\.rect\.get(Min|Max)D\(", a)
+            if m_:
+                rng.setdefault(m_.group(1), []).append(a)
+        bad = None
+        if len(ats) > 14:
+            raise AnalysisBroken("createStraightConstraints: skip condition too large to enumerate")
+        for vals in itertools.product((False, True), repeat=len(ats)):
+            env = dict(zip(ats, vals))
+            if not evalf(pc, env):
+                continue
+            if own_ats and all(env[a] for a in own_ats if "node.id" in a) and any(env[a] for a in own_ats if "node.id" in a):
+                pass
+            if any(env[a] for a in own_ats):
+                continue                      # (the `attached to the node itself` skip; its two conjuncts are checked by the first site)
+            hiding = [n_ for n_, ra in rng.items() if all(env[a] for a in ra)]
+            if not hiding:
+                bad = "a segment is skipped although the scan position is inside no neighbour's extent"
+                break
+            if not any(n_ in conn and not env[conn[n_]] for n_ in hiding):
+                bad = ("a segment is skipped as hidden behind %s without the condition that it is NOT attached to that neighbour "
+                       "(connectedToNode)" % " / ".join(hiding))
+                break
+        (r.ok if bad is None else r.bad)("skip at line %s" % c.get("l"), fn.loc(c), bad or "")
 
 
 def run(chk):
